@@ -882,6 +882,24 @@ pub fn gen_cts(ctx: &mut Ctx, n: usize, stream: u64) {
             5 => vec![snd2.clone(), bye.clone(), snd2.clone(), shw.clone()],
             _ => (0..2 + rng.below(3)).map(|_| rng.pick(&[&cfg, &cin, &snd1, &snd2, &shw, &lnx, &bye]).to_string()).collect(),
         };
+        // in a third of the sequences a second controller object (another address, another type) shares the bus and its
+        // operations are interleaved with the first one's
+        let other = own ^ 0x0101;
+        let t2 = (t + 4) % 11;
+        let ops: Vec<String> = if k % 3 == 1 {
+            let mut v = vec![];
+            for (i, o) in ops.iter().enumerate() {
+                v.push(o.clone());
+                match i % 3 {
+                    0 => v.push(format!("CFG.{}.{}", other, t2)),
+                    1 => v.push(format!("SND.{}.{}", other, small_page(7, 8, 8, &mut rng))),
+                    _ => v.push(format!("SHW.{}.400", other)),
+                }
+            }
+            v
+        } else {
+            ops
+        };
         // how the far side behaves: which transfer attempts report failure, where a fault is injected
         let fail_pattern: Vec<u64> = (0..ops.len()).map(|i| if k % 8 == 0 && i == 0 { 3 } else { rng.below(4) }).collect();
         let fault_at: i64 = if rng.chance(1, 2) { rng.below(40) as i64 } else { -1 };
@@ -900,6 +918,11 @@ pub fn gen_cts(ctx: &mut Ctx, n: usize, stream: u64) {
                 return Some(flt.clone());
             }
             let pending = trace.last().unwrap();
+            // the far side answers from the address it was asked at
+            let own = match pending {
+                Message::Hello(a) | Message::QueryState(a) | Message::RequestOperation(a, _) => a.0,
+                _ => own,
+            };
             Some(match pending {
                 Message::Hello(_) => {
                     let prev_finish = trace.len() >= 2 && matches!(trace[trace.len() - 2], Message::RequestOperation(_, Operation::FinishReset));
@@ -950,9 +973,17 @@ pub fn gen_cts(ctx: &mut Ctx, n: usize, stream: u64) {
         let bus = Rc::new(RefCell::new(CoopBus { trace: vec![], script: vec![], decide: Box::new(decide), limit: 2000 }));
         {
             let dynbus: Rc<RefCell<dyn SignBus>> = bus.clone();
-            let sign = flipdot::Sign::new(dynbus, Address(own), SIGN_TYPES[t]);
+            let mut signs: HashMap<u16, flipdot::Sign> = HashMap::new();
+            signs.insert(own, flipdot::Sign::new(dynbus.clone(), Address(own), SIGN_TYPES[t]));
             for op in &ops {
-                let _ = crate::eval::run_cop_on(&sign, op);
+                let p: Vec<&str> = op.splitn(3, '.').collect();
+                let a: u16 = p[1].parse().unwrap();
+                let ty = match p[0] {
+                    "CFG" | "CIN" => SIGN_TYPES[p[2].parse::<usize>().unwrap()],
+                    _ => SIGN_TYPES[(a % 11) as usize],
+                };
+                let sign = signs.entry(a).or_insert_with(|| flipdot::Sign::new(dynbus.clone(), Address(a), ty));
+                let _ = crate::eval::run_cop_on(sign, op);
             }
         }
         let script = bus.borrow().script.clone();
@@ -970,11 +1001,13 @@ pub fn gen_cts(ctx: &mut Ctx, n: usize, stream: u64) {
             let trace: Vec<Message<'static>> = tr.split(' ').filter(|s| !s.is_empty()).map(msg_of_str).collect();
             let sc: Vec<Reply> = script.iter().skip(consumed).map(|s| reply_of_str(s)).collect();
             let op = &ops[i.min(ops.len() - 1)];
+            let own: u16 = op.splitn(3, '.').nth(1).unwrap().parse().unwrap();
+            let tcfg: usize = if op.starts_with("CFG") || op.starts_with("CIN") { op.splitn(3, '.').nth(2).unwrap().parse().unwrap() } else { t };
             let v = c11_monitor(op, own, &trace, &sc, outcome);
             ctx.monitor(v.is_none(), "C11-invariants", &short, &format!("operation {} ({}): {}", i, &op[..3], v.as_deref().unwrap_or("")));
             if op.starts_with("SND") || op.starts_with("CFG") {
                 let items: Vec<Vec<u8>> = if op.starts_with("CFG") {
-                    vec![SIGN_TYPES[t].to_bytes().to_vec()]
+                    vec![SIGN_TYPES[tcfg].to_bytes().to_vec()]
                 } else {
                     op.splitn(3, '.').nth(2).unwrap().split('+').map(|p| bytes_of_hex(p.split('.').nth(2).unwrap())).collect()
                 };
